@@ -30,6 +30,8 @@ type Scenario struct {
 	Visit func(e *Exec) []Disc
 	// AfterTx: extra per-transaction oracle
 	AfterTx func(e *Exec, obs *TxObs, pre, post map[string][]mc.KV) []Disc
+	// Annotate adds discrete facts to discrepancies (known-finding signatures)
+	Annotate func(e *Exec, d *Disc, tx *model.Tx)
 	// Setup is run on every fresh world right after genesis (harness-level, e.g. funding by keeper is NOT allowed; only tx prefixes)
 }
 
@@ -106,7 +108,7 @@ func (s *Scenario) NewExec() *Exec {
 			w.Acct(n)
 		}
 	}
-	e := &Exec{W: w, Tracked: tr, Aux: map[string]int{}, AfterTx: s.AfterTx}
+	e := &Exec{W: w, Tracked: tr, Aux: map[string]int{}, AfterTx: s.AfterTx, Annotate: s.Annotate}
 	e.M = InitModel(w, tr)
 	return e
 }
@@ -195,8 +197,10 @@ func (s *Scenario) Explore(opt Options) (Stats, []Violation) {
 		st.Actions = append(st.Actions, a.Name)
 	}
 	var viols []Violation
+	perKind := map[string]int{}
 	addViol := func(path []string, d Disc, obs *StepObs) {
-		if len(viols) < opt.MaxViol {
+		perKind[d.Kind]++
+		if len(viols) < opt.MaxViol && perKind[d.Kind] <= 2 { // shortest counterexamples first (BFS order); two per kind
 			viols = append(viols, Violation{Property: opt.Property, Scenario: s.Name, Path: path, Disc: d, Step: obs})
 		}
 	}
@@ -361,7 +365,7 @@ func (s *Scenario) Explore(opt Options) (Stats, []Violation) {
 			seen[r.key] = true
 			st.States++
 			newCount++
-			n := &node{path: path, snap: r.snap, m: r.m, aux: r.aux, key: r.key, appHash: r.obs.AppHash, dead: r.obs.Diverged}
+			n := &node{path: path, snap: r.snap, m: r.m, aux: r.aux, key: r.key, appHash: r.obs.AppHash, dead: r.obs.Diverged || len(r.discs) > 0}
 			if n.dead {
 				st.DeadStates++
 			}
